@@ -44,11 +44,13 @@ Count(e) == IF IsMulti(e) THEN SumSeq([i \in 1..Len(e.ch) |-> Count(e.ch[i])]) E
 \* Error::prepend_at (mod.rs:449)
 PrependAt(e, locs) == IF locs = <<>> THEN e ELSE [e EXCEPT !.loc = locs \o @]
 
-\* Error::into_vec (mod.rs:354): recursive flat_map; the bundle's own span is dropped
+\* Error::into_vec (mod.rs:354): recursive flat_map; a child without a span of its own inherits
+\* the span of the bundle that contained it
+InheritSpan(c, sp) == IF c.sp = NoSpan THEN [c EXCEPT !.sp = sp] ELSE c
 RECURSIVE IntoVec(_)
 IntoVec(e) ==
   IF IsMulti(e)
-  THEN ConcatAll([i \in 1..Len(e.ch) |-> IntoVec(PrependAt(e.ch[i], e.loc))])
+  THEN ConcatAll([i \in 1..Len(e.ch) |-> IntoVec(InheritSpan(PrependAt(e.ch[i], e.loc), e.sp))])
   ELSE <<e>>
 
 \* Error::flatten (mod.rs:350)
@@ -79,11 +81,14 @@ ToSyn(e) ==
 (* Declarative side: the leaves of a tree with their full paths, by a      *)
 (* top-down walk that never looks at the operators above.                  *)
 
-RECURSIVE LeavesD(_, _)
-LeavesD(e, prefix) ==
+\* ... and with its own span or, if it has none, that of its nearest spanned ancestor
+RECURSIVE LeavesI(_, _, _)
+LeavesI(e, prefix, inh) ==
+  LET own == IF e.sp # NoSpan THEN e.sp ELSE inh IN
   IF IsMulti(e)
-  THEN ConcatAll([i \in 1..Len(e.ch) |-> LeavesD(e.ch[i], prefix \o e.loc)])
-  ELSE <<[e EXCEPT !.loc = prefix \o e.loc]>>
+  THEN ConcatAll([i \in 1..Len(e.ch) |-> LeavesI(e.ch[i], prefix \o e.loc, own)])
+  ELSE <<[e EXCEPT !.loc = prefix \o e.loc, !.sp = own]>>
+LeavesD(e, prefix) == LeavesI(e, prefix, NoSpan)
 
 RECURSIVE WellFormed(_)
 WellFormed(e) ==
